@@ -60,6 +60,11 @@ pub enum Case {
         updates: u8,
         #[serde(default)]
         shape: u32,
+        /// bit i: the non-Generic child i is a real `Timer` (armed, so it draws a token in every pass, whatever `shape`
+        /// says) due 1 ms after the last pass: the expiry must come back under the key the child holds NOW (its
+        /// position in the last pass) and fire that timer once - the token the timer wheel holds is a poller key too
+        #[serde(default)]
+        timers: u8,
     },
 }
 
@@ -120,7 +125,7 @@ fn loop_case() -> impl Strategy<Value = Case> {
 }
 
 fn mixed_case() -> impl Strategy<Value = Case> {
-    (proptest::collection::vec(any::<bool>(), 1..=6), 0u8..4, prop_oneof![1 => Just(0u32), 2 => any::<u32>()]).prop_map(|(layout, updates, shape)| Case::Mixed { layout, updates, shape })
+    (proptest::collection::vec(any::<bool>(), 1..=6), 0u8..4, prop_oneof![1 => Just(0u32), 2 => any::<u32>()], prop_oneof![2 => Just(0u8), 1 => any::<u8>()]).prop_map(|(layout, updates, shape, timers)| Case::Mixed { layout, updates, shape, timers })
 }
 
 fn v(rule: &str, detail: String) -> Option<Violation> {
@@ -315,6 +320,12 @@ struct MixedProbe {
     drawn: Rc<RefCell<Vec<Option<usize>>>>,
     /// bit i: drawing child i takes a token in the current pass
     draws: Rc<std::cell::Cell<u32>>,
+    /// real Timer children (same index space)
+    timers: Vec<Option<calloop::timer::Timer>>,
+    /// keys of the events handed to process_events
+    events: Rc<RefCell<Vec<usize>>>,
+    /// per child: how often its Timer fired
+    fired: Rc<RefCell<Vec<u32>>>,
 }
 
 impl EventSource for MixedProbe {
@@ -322,14 +333,29 @@ impl EventSource for MixedProbe {
     type Metadata = ();
     type Ret = ();
     type Error = std::io::Error;
-    fn process_events<F>(&mut self, _: Readiness, _: Token, _cb: F) -> Result<PostAction, Self::Error>
+    fn process_events<F>(&mut self, readiness: Readiness, token: Token, _cb: F) -> Result<PostAction, Self::Error>
     where
         F: FnMut((), &mut ()),
     {
+        self.events.borrow_mut().push(token.verif_key());
+        // book style: every event is offered to every Timer child, each filters by its own token
+        for (i, t) in self.timers.iter_mut().enumerate() {
+            if let Some(t) = t {
+                let fired = self.fired.clone();
+                let _ = t.process_events(readiness, token, |_, _| {
+                    fired.borrow_mut()[i] += 1;
+                    calloop::timer::TimeoutAction::Drop
+                });
+            }
+        }
         Ok(PostAction::Continue)
     }
     fn register(&mut self, poll: &mut Poll, tf: &mut TokenFactory) -> calloop::Result<()> {
         for (i, g) in self.gens.iter_mut().enumerate() {
+            if let Some(t) = self.timers[i].as_mut() {
+                t.register(poll, tf)?;
+                continue;
+            }
             match g {
                 Some(g) => g.register(poll, tf)?,
                 None => self.drawn.borrow_mut()[i] = if self.draws.get() >> i & 1 == 1 { Some(tf.token().verif_key()) } else { None },
@@ -339,6 +365,10 @@ impl EventSource for MixedProbe {
     }
     fn reregister(&mut self, poll: &mut Poll, tf: &mut TokenFactory) -> calloop::Result<()> {
         for (i, g) in self.gens.iter_mut().enumerate() {
+            if let Some(t) = self.timers[i].as_mut() {
+                t.reregister(poll, tf)?;
+                continue;
+            }
             match g {
                 Some(g) => g.reregister(poll, tf)?,
                 None => self.drawn.borrow_mut()[i] = if self.draws.get() >> i & 1 == 1 { Some(tf.token().verif_key()) } else { None },
@@ -350,20 +380,30 @@ impl EventSource for MixedProbe {
         for g in self.gens.iter_mut().flatten() {
             g.unregister(poll)?;
         }
+        for t in self.timers.iter_mut().flatten() {
+            t.unregister(poll)?;
+        }
         Ok(())
     }
 }
 
-fn run_mixed(layout: &[bool], updates: u8, shape: u32) -> Option<Violation> {
+fn run_mixed(layout: &[bool], updates: u8, shape: u32, timers: u8) -> Option<Violation> {
     let layout: Vec<bool> = layout.iter().copied().take(8).collect();
     if layout.is_empty() {
         return None;
     }
-    let el: EventLoop<()> = EventLoop::try_new().expect("event loop");
+    let mut el: EventLoop<()> = EventLoop::try_new().expect("event loop");
     let epfd = el.as_raw_fd();
     let h = el.handle();
     let mut raw: Vec<Option<RawFd>> = Vec::new();
     let mut gens = Vec::new();
+    let is_timer = |i: usize| !layout[i] && timers >> i & 1 == 1;
+    // far enough for the passes below, re-set to "1 ms from now" before the last one
+    let timer_children: Vec<Option<calloop::timer::Timer>> =
+        (0..layout.len()).map(|i| if is_timer(i) { Some(calloop::timer::Timer::from_duration(Duration::from_secs(3600))) } else { None }).collect();
+    let any_timer = timer_children.iter().any(|t| t.is_some());
+    let events = Rc::new(RefCell::new(Vec::new()));
+    let fired = Rc::new(RefCell::new(vec![0u32; layout.len()]));
     for is_gen in &layout {
         if *is_gen {
             let fd = kernel::eventfd_nonblock();
@@ -375,17 +415,38 @@ fn run_mixed(layout: &[bool], updates: u8, shape: u32) -> Option<Violation> {
         }
     }
     let drawn = Rc::new(RefCell::new(vec![None; layout.len()]));
+    let timer_mask: u32 = (0..layout.len()).fold(0, |m, i| m | ((is_timer(i) as u32) << i));
     let draws_of = |pass: u32| -> u32 {
-        if shape == 0 {
-            u32::MAX
-        } else {
-            (0..layout.len() as u32).fold(0, |m, i| m | ((shape >> ((pass * 3 + i) % 32) & 1) << i))
-        }
+        timer_mask
+            | if shape == 0 {
+                u32::MAX
+            } else {
+                (0..layout.len() as u32).fold(0, |m, i| m | ((shape >> ((pass * 3 + i) % 32) & 1) << i))
+            }
     };
     let draws = Rc::new(std::cell::Cell::new(draws_of(0)));
-    let tok = h.insert_source(MixedProbe { gens, drawn: drawn.clone(), draws: draws.clone() }, |_, _, _| {}).expect("insert MixedProbe");
+    let probe = calloop::Dispatcher::new(
+        MixedProbe { gens, drawn: drawn.clone(), draws: draws.clone(), timers: timer_children, events: events.clone(), fired: fired.clone() },
+        |_: (), _: &mut (), _: &mut ()| {},
+    );
+    let tok = h.register_dispatcher(probe.clone()).expect("insert MixedProbe");
+    let last_round = updates.min(4);
+    let mut timer_keys: Vec<(usize, usize)> = Vec::new();
     let (slot, ver, _) = cv::unpack(tok.verif_key());
     for round in 0..=updates.min(4) {
+        if any_timer && round == last_round {
+            // the deadline the last pass arms (set through the guard, which is released before the loop is called)
+            let mut g = probe.as_source_mut();
+            for t in g.timers.iter_mut().flatten() {
+                t.set_duration(Duration::from_millis(1));
+            }
+            drop(g);
+            if round == 0 {
+                if let Err(e) = h.update(&tok) {
+                    return v("C20.kernel", format!("update() of the composite failed: {e}"));
+                }
+            }
+        }
         if round > 0 {
             draws.set(draws_of(round as u32));
             if let Err(e) = h.update(&tok) {
@@ -402,6 +463,14 @@ fn run_mixed(layout: &[bool], updates: u8, shape: u32) -> Option<Violation> {
             }
             let want_sub = next_sub;
             next_sub += 1;
+            if is_timer(i) {
+                // what the wheel holds shows when the timer expires (below); its place in this pass is `want_sub`
+                if round == last_round {
+                    timer_keys.push((i, cv::pack(slot, ver, want_sub)));
+                }
+                keys.push(cv::pack(slot, ver, want_sub));
+                continue;
+            }
             let k = match fd {
                 Some(fd) => match table.iter().find(|e| e.tfd == *fd) {
                     Some(e) => e.data as usize,
@@ -443,8 +512,46 @@ fn run_mixed(layout: &[bool], updates: u8, shape: u32) -> Option<Violation> {
             );
         }
     }
+    if any_timer {
+        // nothing but the timers can be ready (the eventfds were never written): every event of the next dispatches
+        // must carry the key one of the Timer children holds now, and each of them fires exactly once
+        let t0 = std::time::Instant::now();
+        while fired.borrow().iter().zip(0..).any(|(n, i)| is_timer(i) && *n == 0) && t0.elapsed() < Duration::from_millis(300) {
+            if let Err(e) = el.dispatch(Some(Duration::from_millis(20)), &mut ()) {
+                return v("C20.kernel", format!("dispatch failed: {e}"));
+            }
+        }
+        let want: Vec<usize> = timer_keys.iter().map(|(_, k)| *k).collect();
+        for k in events.borrow().iter() {
+            if !want.contains(k) {
+                return v(
+                    "C20.kernel",
+                    format!(
+                        "a timer expiry came back under key {:?}; the Timer children hold {:?} after the last pass (layout {layout:?}, timers {timers:#b}, shape {shape:#x}): the timer wheel still holds the key of an earlier pass, which now is {}",
+                        cv::unpack(*k),
+                        want.iter().map(|k| cv::unpack(*k)).collect::<Vec<_>>(),
+                        if keys_of_last_pass(&drawn, &table_keys(epfd)).contains(k) { "the key of a sibling" } else { "nobody's" }
+                    ),
+                );
+            }
+        }
+        for (i, _) in &timer_keys {
+            let n = fired.borrow()[*i];
+            if n != 1 {
+                return v("C20.kernel", format!("Timer child {i} fired {n} time(s) within 300 ms of a 1 ms deadline, expected once (events seen: {:?})", events.borrow().iter().map(|k| cv::unpack(*k)).collect::<Vec<_>>()));
+            }
+        }
+    }
     h.remove(tok);
     None
+}
+
+fn table_keys(epfd: RawFd) -> Vec<usize> {
+    kernel::epoll_table(epfd).iter().map(|e| e.data as usize).collect()
+}
+
+fn keys_of_last_pass(drawn: &Rc<RefCell<Vec<Option<usize>>>>, table: &[usize]) -> Vec<usize> {
+    drawn.borrow().iter().flatten().copied().chain(table.iter().copied()).collect()
 }
 
 fn run_loop(pre_slots: u8, reuses: u32, subs: u8) -> Option<Violation> {
@@ -553,13 +660,16 @@ pub fn run_case(case: &Case) -> CaseOutcome {
             info.nontrivial = *reuses >= 2 || *subs >= 2;
             run_loop(*pre_slots, *reuses, *subs)
         }
-        Case::Mixed { layout, updates, shape } => {
+        Case::Mixed { layout, updates, shape, timers } => {
             info.classes.push("mixed_composite");
+            if layout.iter().enumerate().any(|(i, g)| !*g && *timers >> i & 1 == 1) {
+                info.classes.push("mixed_composite_with_timer_children");
+            }
             if *shape != 0 {
                 info.classes.push("mixed_composite_with_shifting_sub_ids");
             }
             info.nontrivial = layout.len() >= 2 && *updates >= 1 && layout.iter().any(|g| *g) && layout.iter().any(|g| !*g);
-            run_mixed(layout, *updates, *shape)
+            run_mixed(layout, *updates, *shape, *timers)
         }
     };
     (info, viol)
@@ -756,7 +866,8 @@ fn mixed_from_bytes(data: &[u8]) -> Case {
     let layout = (0..n).map(|_| d.bool()).collect();
     let updates = d.u8r(0, 3);
     let shape = if d.pct(33) { 0 } else { d.u32r(0, u32::MAX) };
-    Case::Mixed { layout, updates, shape }
+    let timers = if d.pct(60) { 0 } else { d.u8r(0, 255) };
+    Case::Mixed { layout, updates, shape, timers }
 }
 
 pub fn fuzz_subs(_ctx: &CheckCtx) -> Vec<crate::fuzz::FuzzSub> {
